@@ -1399,4 +1399,416 @@ theorem sim_start {CM XR RNG : Type} {X : Ext CM XR RNG} {C : Crypto} (A : ExtOk
   exact ⟨relN_of_rel A g d h, hs, rfl, rfl, ⟨[], rfl⟩, fun _ => rfl⟩
 
 end witness
+
+/-! ## Part 7 — the encoder: `encode_size`, `encode_chunk`, `encode_packet`, `encode_payload` -/
+section enc
+variable {CM XR RNG : Type} {X : Ext CM XR RNG} {C : Crypto}
+open Octo.Fr
+
+theorem to_be_bytes_eq (x : UInt16) : U16.to_be_bytes x = be16 x.toNat := by
+  have := UInt16.toNat_lt x
+  simp only [U16.to_be_bytes, be16, u8, List.cons.injEq, and_true]
+  constructor
+  · apply UInt8.toNat_inj.mp
+    simp [UInt16.toNat_shiftRight, Nat.shiftRight_eq_div_pow]
+  · apply UInt8.toNat_inj.mp
+    simp
+
+theorem as_u16_toNat (x : Usize) (h : x.toNat < 65536) : (Usize.as_u16 x).toNat = x.toNat := by
+  rw [Usize.as_u16, UInt16.toNat_ofNat']; exact Nat.mod_eq_of_lt h
+
+theorem shake_encode_size (A : ExtOk X C) (hC : C.Lawful) (ov : Bool) (s : ShakeSizeParser XR) (seed : Bytes) (pos : Nat)
+    (h : shakeRel A s seed pos) (size : Usize) (hs : size.toNat < 65536) :
+    ∃ s', ShakeSizeParser.encode_size X ov s size =
+        PWGen.Res.ok (s', be16 (Nat.xor (shakeU16 C seed pos) size.toNat % 65536)) ∧ shakeRel A s' seed (pos + 1) := by
+  obtain ⟨s', m, hn, hm, hr⟩ := shake_next A hC ov s seed pos h
+  refine ⟨s', ?_, hr⟩
+  have hx : (m ^^^ Usize.as_u16 size).toNat = Nat.xor (shakeU16 C seed pos) size.toNat % 65536 := by
+    rw [u16_xor_toNat, hm, as_u16_toNat size hs]
+    exact (Nat.mod_eq_of_lt (xor16_lt _ _ (shakeU16_lt C hC seed pos) hs)).symm
+  simp only [ShakeSizeParser.encode_size, hn, call_ok, bind_next, run_ret, Cursor.to_vec, to_be_bytes_eq, hx]
+
+/-- `Authenticator::encode_size`: the length cipher seals `size - tag` under its own key, with its own counter -/
+theorem auth_encode_size (A : ExtOk X C) (ov : Bool) (a : Authenticator CM) (alg : Alg) (key iv : Bytes) (count : Nat)
+    (h : authRel A a alg key count) (size : Usize) (nonce : List UInt8) (h16 : 16 ≤ size.toNat) (hs : size.toNat < 65536)
+    (hl : 12 ≤ nonce.length) (hiv : nonce.drop 2 = iv.drop 2) :
+    ∃ a', Authenticator.encode_size X ov a size nonce = PWGen.Res.ok (a', stamped a.counting.count nonce,
+        RResult.ok (C.sealB alg key (Nonce.counting iv count 12) [] (be16 (size.toNat - 16)))) ∧
+      authRel A a' alg key (count + 1) := by
+  obtain ⟨hc, hcount, hns⟩ := h
+  have e16 : (16 : Usize).toNat = 16 := rfl
+  have sok : U64.subOk size 16 = true := by simp only [U64.subOk, e16, decide_eq_true_eq]; exact h16
+  have hsub : (size - 16).toNat = size.toNat - 16 := sub_toNat size 16 (by rw [e16]; exact h16)
+  have hbuf : U16.to_be_bytes (Usize.as_u16 (size - 16)) = be16 (size.toNat - 16) := by
+    rw [to_be_bytes_eq, as_u16_toNat _ (by rw [hsub]; omega), hsub]
+  have hse := seal_eval X ov a (be16 (size.toNat - 16)) nonce hns hl
+  have hn := counting_congr nonce iv _ count hcount hiv
+  have he := A.enc a.cipher (Nonce.counting nonce a.counting.count.toNat 12) (be16 (size.toNat - 16))
+  rw [hc, hn] at he
+  rw [hn] at hse
+  refine ⟨⟨a.cipher, ⟨a.counting.count + 1, 12⟩⟩, ?_, ⟨hc, count_step _ _ hcount, rfl⟩⟩
+  simp only [Authenticator.encode_size, A.tag, sok, arith_true, bind_next, Cursor.to_vec, hbuf, hse, call_ok, he, question_ok, run_ret]
+
+/-- **`encode_size`** = `Body.encodeSize` -/
+theorem encode_size_spec (A : ExtOk X C) (hC : C.Lawful) (ov : Bool) (g : AEADBodyCodec CM XR) (b : Body) (h : RelCore A g b)
+    (size : Usize) (nonce : List UInt8) (h16 : 16 ≤ size.toNat) (hs : size.toNat < 65536) (hl : 12 ≤ nonce.length)
+    (hiv : b.size = .auth → nonce.drop 2 = b.sizeIv.drop 2) :
+    ∃ g' n', AEADBodyCodec.encode_size X ov g size nonce = PWGen.Res.ok (g', n', RResult.ok (b.encodeSize C size.toNat).1) ∧
+      n'.length = nonce.length ∧ n'.drop 2 = nonce.drop 2 ∧ RelCore A g' (b.encodeSize C size.toNat).2 ∧ g'.state = g.state := by
+  have hch := h.chunk
+  cases hc : g.chunk with
+  | Plain =>
+    rw [hc] at hch
+    have hsz : b.size = .plain := hch
+    refine ⟨g, nonce, ?_, rfl, rfl, ?_, rfl⟩
+    · simp only [AEADBodyCodec.encode_size, hc, plain_encode_size, call_ok, bind_next, run_ret, to_be_bytes_eq,
+        as_u16_toNat size hs, Body.encodeSize, hsz]
+    · simp only [Body.encodeSize, hsz]; exact h
+  | Shake =>
+    rw [hc] at hch
+    have hsz : b.size = .shake := hch
+    obtain ⟨s', hn, hr⟩ := shake_encode_size A hC ov g.shake b.shakeSeed b.shakePos ⟨h.xof, h.buf⟩ size hs
+    refine ⟨{ g with shake := s' }, nonce, ?_, rfl, rfl, ?_, rfl⟩
+    · simp only [AEADBodyCodec.encode_size, hc, hn, call_ok, bind_next, run_ret, Body.encodeSize, hsz]
+    · have hb' : (b.encodeSize C size.toNat).2 = { b with shakePos := b.shakePos + 1 } := by
+        unfold Body.encodeSize; rw [hsz]
+      rw [hb']
+      exact ⟨h.auth, by show chunkRel A g.chunk _; rw [hc]; exact hsz, h.pad, hr.1, hr.2, h.limit⟩
+  | Auth a =>
+    rw [hc] at hch
+    obtain ⟨hsz, ha⟩ := hch
+    obtain ⟨a', he, ha'⟩ := auth_encode_size A ov a b.sec.alg b.sizeKey b.sizeIv b.sizeCount ha size nonce h16 hs hl (hiv hsz)
+    refine ⟨{ g with chunk := .Auth a' }, stamped a.counting.count nonce, ?_, stamped_length _ _ (by omega), stamped_drop _ _, ?_, rfl⟩
+    · simp only [AEADBodyCodec.encode_size, hc, he, call_ok, bind_next, run_ret, Body.encodeSize, hsz]
+    · have hb' : (b.encodeSize C size.toNat).2 = { b with sizeCount := b.sizeCount + 1 } := by
+        unfold Body.encodeSize; rw [hsz]
+      rw [hb']
+      exact ⟨h.auth, ⟨hsz, ha'⟩, h.pad, h.xof, h.buf, h.limit⟩
+
+theorem sessE_chunk_put (s : DynSession) (b b' : Body) (n' : List UInt8) (h : SessE s b)
+    (hl : n'.length = (DynSession.chunk_nonce s).length) (hd : n'.drop 2 = (DynSession.chunk_nonce s).drop 2)
+    (h1 : b'.iv = b.iv) (h2 : b'.size = b.size) (h3 : b'.sizeIv = b.sizeIv) :
+    SessE (DynSession.chunk_nonce_put s n') b' := by
+  obtain ⟨⟨d1, d2⟩, c1, c2⟩ := h
+  rw [h1.symm] at d2
+  rw [h2.symm, h3.symm] at c2
+  cases s with
+  | ClientSession x =>
+    simp only [DynSession.chunk_nonce, DynSession.encoder_nonce_mut] at hl hd d1 d2 c1 c2
+    refine ⟨⟨?_, ?_⟩, ?_, fun hh => ?_⟩ <;>
+      simp only [DynSession.chunk_nonce, DynSession.encoder_nonce_mut, DynSession.chunk_nonce_put]
+    · omega
+    · rw [hd]; exact d2
+    · omega
+    · rw [hd]; exact c2 hh
+  | ServerSession x =>
+    simp only [DynSession.chunk_nonce, DynSession.encoder_nonce_mut] at hl hd d1 d2 c1 c2
+    refine ⟨⟨?_, ?_⟩, ?_, fun hh => ?_⟩ <;>
+      simp only [DynSession.chunk_nonce, DynSession.encoder_nonce_mut, DynSession.chunk_nonce_put]
+    · exact d1
+    · exact d2
+    · omega
+    · rw [hd]; exact c2 hh
+
+theorem sessE_enc_put (s : DynSession) (b b' : Body) (n' : List UInt8) (h : SessE s b)
+    (hl : n'.length = (DynSession.encoder_nonce_mut s).length) (hd : n'.drop 2 = (DynSession.encoder_nonce_mut s).drop 2)
+    (h1 : b'.iv = b.iv) (h2 : b'.size = b.size) (h3 : b'.sizeIv = b.sizeIv) :
+    SessE (DynSession.encoder_nonce_mut_put s n') b' := by
+  obtain ⟨⟨d1, d2⟩, c1, c2⟩ := h
+  rw [h1.symm] at d2
+  rw [h2.symm, h3.symm] at c2
+  cases s with
+  | ClientSession x =>
+    simp only [DynSession.chunk_nonce, DynSession.encoder_nonce_mut] at hl hd d1 d2 c1 c2
+    refine ⟨⟨?_, ?_⟩, ?_, fun hh => ?_⟩ <;>
+      simp only [DynSession.chunk_nonce, DynSession.encoder_nonce_mut, DynSession.encoder_nonce_mut_put]
+    · omega
+    · rw [hd]; exact d2
+    · omega
+    · rw [hd]; exact c2 hh
+  | ServerSession x =>
+    simp only [DynSession.chunk_nonce, DynSession.encoder_nonce_mut] at hl hd d1 d2 c1 c2
+    refine ⟨⟨?_, ?_⟩, ?_, fun hh => ?_⟩ <;>
+      simp only [DynSession.chunk_nonce, DynSession.encoder_nonce_mut, DynSession.encoder_nonce_mut_put]
+    · omega
+    · rw [hd]; exact d2
+    · exact c1
+    · exact c2 hh
+
+theorem usize_min_toNat (a c : Usize) : (Usize.min a c).toNat = min a.toNat c.toNat := by
+  unfold Usize.min
+  by_cases h : a ≤ c
+  · rw [if_pos h]; have := UInt64.le_iff_toNat_le.mp h; omega
+  · rw [if_neg h]; have : ¬ a.toNat ≤ c.toNat := fun hh => h (UInt64.le_iff_toNat_le.mpr hh); omega
+
+theorem nextPadding_fields (C : Crypto) (b : Body) :
+    (b.nextPadding C).2.iv = b.iv ∧ (b.nextPadding C).2.size = b.size ∧ (b.nextPadding C).2.sizeIv = b.sizeIv := by
+  unfold Body.nextPadding; split <;> exact ⟨rfl, rfl, rfl⟩
+
+theorem encodeSize_fields (C : Crypto) (b : Body) (n : Nat) :
+    (b.encodeSize C n).2.iv = b.iv ∧ (b.encodeSize C n).2.size = b.size ∧ (b.encodeSize C n).2.sizeIv = b.sizeIv ∧
+      (b.encodeSize C n).2.sec = b.sec ∧ (b.encodeSize C n).2.key = b.key ∧ (b.encodeSize C n).2.count = b.count := by
+  obtain ⟨sec, key, iv, count, size, sizeKey, sizeIv, sizeCount, gp, seed, pos, st⟩ := b
+  cases size <;> exact ⟨rfl, rfl, rfl, rfl, rfl, rfl⟩
+
+/-- the chunk limit of the code is the model's: `payload_limit - tag_size - size_bytes - padding` -/
+theorem limit_facts (p sb lim : Usize) (hl : lim.toNat = Consts.vmessPayloadLimit) (hsb : sb.toNat = 2 ∨ sb.toNat = 18) (hp : p.toNat ≤ 63) :
+    U64.subOk lim 16 = true ∧ U64.subOk (lim - 16) sb = true ∧ U64.subOk (lim - 16 - sb) p = true ∧
+      (lim - 16 - sb - p).toNat = Consts.vmessPayloadLimit - 16 - sb.toNat - p.toNat := by
+  have e16 : (16 : Usize).toNat = 16 := rfl
+  have hL : Consts.vmessPayloadLimit = 2048 := rfl
+  have s1 : (lim - 16).toNat = lim.toNat - 16 := sub_toNat lim 16 (by rw [e16, hl, hL]; omega)
+  have s2 : (lim - 16 - sb).toNat = lim.toNat - 16 - sb.toNat := by rw [sub_toNat _ _ (by rw [s1, hl, hL]; omega), s1]
+  have s3 : (lim - 16 - sb - p).toNat = lim.toNat - 16 - sb.toNat - p.toNat := by
+    rw [sub_toNat _ _ (by rw [s2, hl, hL]; omega), s2]
+  refine ⟨?_, ?_, ?_, by rw [s3, hl]⟩
+  · simp only [U64.subOk, e16, decide_eq_true_eq]; rw [hl, hL]; omega
+  · simp only [U64.subOk, s1, decide_eq_true_eq]; rw [hl, hL]; omega
+  · simp only [U64.subOk, s2, decide_eq_true_eq]; rw [hl, hL]; omega
+
+/-- **`encode_chunk`** = `Body.encodeChunk`, the padding bytes being those the random source hands out: what is appended to
+`dst`, what is left of `src`, the new codec state (padding draw, size counter / SHAKE position, payload counter + 1), the
+session (nonce buffers keep all but their first two bytes), the random source -/
+theorem encode_chunk_spec (A : ExtOk X C) (hC : C.Lawful) (ov : Bool) (g : AEADBodyCodec CM XR) (b : Body) (h : RelCore A g b)
+    (rng : RNG) (src dst : Bytes) (sess : DynSession) (hs : SessE sess b) (h64 : src.length < 2 ^ 64) :
+    ∃ g' sess', AEADBodyCodec.encode_chunk X ov g rng src dst sess =
+        PWGen.Res.ok (g', (X.fill_bytes rng (List.replicate (b.nextPadding C).1 0)).1,
+          (b.encodeChunk C src (X.fill_bytes rng (List.replicate (b.nextPadding C).1 0)).2).2.1,
+          dst ++ (b.encodeChunk C src (X.fill_bytes rng (List.replicate (b.nextPadding C).1 0)).2).1, sess', RResult.ok ()) ∧
+      RelCore A g' (b.encodeChunk C src (X.fill_bytes rng (List.replicate (b.nextPadding C).1 0)).2).2.2 ∧
+      SessE sess' (b.encodeChunk C src (X.fill_bytes rng (List.replicate (b.nextPadding C).1 0)).2).2.2 ∧ g'.state = g.state := by
+  obtain ⟨g1, p, hnp, hp, hc1, hst1⟩ := next_padding_length_spec A hC ov g b h
+  have hp63 : p.toNat ≤ 63 := by rw [hp]; exact Body.nextPadding_le C b
+  obtain ⟨sb, hsbe, hsbn⟩ := size_bytes_spec A ov g1 _ hc1
+  rw [Body.nextPadding_sizeBytes] at hsbn
+  have hsbc : sb.toNat = 2 ∨ sb.toNat = 18 := by rw [hsbn]; exact b.sizeBytes_cases
+  obtain ⟨k1, k2, k3, hL⟩ := limit_facts p sb g1.payload_limit hc1.limit hsbc hp63
+  have hn : (Usize.min (Cursor.remaining src) (g1.payload_limit - 16 - sb - p)).toNat = b.chunkLen C src := by
+    rw [usize_min_toNat, remaining_toNat src h64, hL, hsbn, hp]; rfl
+  generalize hes : Usize.min (Cursor.remaining src) (g1.payload_limit - 16 - sb - p) = es at hn
+  have hlt := Body.chunkLen_size_lt C b src
+  have hle := Body.chunkLen_le C b src
+  have e16 : (16 : Usize).toNat = 16 := rfl
+  have a1 : (es + p).toNat = es.toNat + p.toNat := add_toNat _ _ (by rw [hn, hp]; omega)
+  have a2 : (es + p + 16).toNat = b.chunkLen C src + (b.nextPadding C).1 + 16 := by
+    rw [add_toNat _ _ (by rw [a1, hn, hp, e16]; omega), a1, hn, hp, e16]
+  have ok1 : U64.addOk es p = true := by simp only [U64.addOk, decide_eq_true_eq]; rw [hn, hp]; omega
+  have ok2 : U64.addOk (es + p) 16 = true := by simp only [U64.addOk, decide_eq_true_eq, a1, e16]; rw [hn, hp]; omega
+  have hf1 := nextPadding_fields C b
+  obtain ⟨g2, n', hese, hnl, hnd, hc2, hst2⟩ := encode_size_spec A hC ov g1 _ hc1 (es + p + 16) (DynSession.chunk_nonce sess)
+    (by rw [a2]; omega) (by rw [a2]; exact hlt) hs.c.1 (fun ha => by rw [hf1.2.2]; exact hs.c.2 (by rw [← hf1.2.1]; exact ha))
+  rw [a2] at hese hc2
+  have hf2 := encodeSize_fields C (b.nextPadding C).2 (b.chunkLen C src + (b.nextPadding C).1 + 16)
+  have hs1 : SessE (DynSession.chunk_nonce_put sess n') ((b.nextPadding C).2.encodeSize C (b.chunkLen C src + (b.nextPadding C).1 + 16)).2 :=
+    sessE_chunk_put sess b _ n' hs hnl hnd (by rw [hf2.1, hf1.1]) (by rw [hf2.2.1, hf1.2.1]) (by rw [hf2.2.2.1, hf1.2.2])
+  have spl : (Flow.split_to src es : Flow (Cursor × Cursor) (AEADBodyCodec CM XR × RNG × Cursor × Cursor × DynSession × RResult Unit))
+      = Flow.next (src.drop (b.chunkLen C src), src.take (b.chunkLen C src)) := by
+    rw [← hn]; exact split_to_ok src es (by rw [hn]; exact hle)
+  obtain ⟨hac, hacount, hans⟩ := hc2.auth
+  have hse := seal_eval X ov g2.auth (src.take (b.chunkLen C src)) (DynSession.encoder_nonce_mut (DynSession.chunk_nonce_put sess n')) hans hs1.d.1
+  have hcn := counting_congr _ _ _ _ hacount hs1.d.2
+  have hen := A.enc g2.auth.cipher (Nonce.counting (DynSession.encoder_nonce_mut (DynSession.chunk_nonce_put sess n')) g2.auth.counting.count.toNat 12)
+    (src.take (b.chunkLen C src))
+  rw [hac, hcn] at hen
+  rw [hcn] at hse
+  have hfl := A.fill rng (List.replicate (b.nextPadding C).1 0)
+  rw [List.length_replicate] at hfl
+  have htk : (X.fill_bytes rng (List.replicate (b.nextPadding C).1 0)).2.take (b.nextPadding C).1 =
+      (X.fill_bytes rng (List.replicate (b.nextPadding C).1 0)).2 := List.take_of_length_le (by omega)
+  refine ⟨{ g2 with auth := ⟨g2.auth.cipher, ⟨g2.auth.counting.count + 1, 12⟩⟩ },
+    DynSession.encoder_nonce_mut_put (DynSession.chunk_nonce_put sess n')
+      (stamped g2.auth.counting.count (DynSession.encoder_nonce_mut (DynSession.chunk_nonce_put sess n'))), ?_, ?_, ?_, ?_⟩
+  · rw [Body.encodeChunk_eq]
+    simp only [AEADBodyCodec.encode_chunk, hnp, call_ok, bind_next, A.tag, k1, arith_true, hsbe, k2, k3, hes, ok1, ok2, hese, question_ok,
+      Cursor.extend_from_slice, spl, hse, hen, hp, htk, run_ret, List.append_assoc]
+  · rw [Body.encodeChunk_eq]
+    exact relCore_auth A g2 _ _ hc2 ⟨hac, count_step _ _ hacount, rfl⟩
+  · rw [Body.encodeChunk_eq]
+    exact sessE_enc_put _ _ _ _ hs1 (stamped_length _ _ (by have := hs1.d.1; omega)) (stamped_drop _ _) rfl rfl rfl
+  · show g2.state = g.state
+    rw [hst2, hst1]
+
+theorem beq_shake (x : PaddingLengthGenerator) : (x == PaddingLengthGenerator.Shake) = true ↔ x = .Shake := by
+  cases x <;> simp
+
+/-- **`encode_packet`** = `Body.encodePacket`: a datagram that might not fit one chunk whatever the padding turns out to be is
+refused (`Err`, nothing written, nothing drawn); otherwise exactly one chunk -/
+theorem encode_packet_spec (A : ExtOk X C) (hC : C.Lawful) (ov : Bool) (g : AEADBodyCodec CM XR) (b : Body) (h : RelCore A g b)
+    (rng : RNG) (src dst : Bytes) (sess : DynSession) (hs : SessE sess b) (h64 : src.length < 2 ^ 64) :
+    (b.packetLimit < src.length →
+      AEADBodyCodec.encode_packet X ov g rng src dst sess = PWGen.Res.ok (g, rng, dst, sess, RResult.err)) ∧
+    (src.length ≤ b.packetLimit → ∃ g' sess', AEADBodyCodec.encode_packet X ov g rng src dst sess =
+        PWGen.Res.ok (g', (X.fill_bytes rng (List.replicate (b.nextPadding C).1 0)).1,
+          dst ++ (b.encodeChunk C src (X.fill_bytes rng (List.replicate (b.nextPadding C).1 0)).2).1, sess', RResult.ok ()) ∧
+      RelCore A g' (b.encodeChunk C src (X.fill_bytes rng (List.replicate (b.nextPadding C).1 0)).2).2.2 ∧
+      SessE sess' (b.encodeChunk C src (X.fill_bytes rng (List.replicate (b.nextPadding C).1 0)).2).2.2 ∧ g'.state = g.state) := by
+  obtain ⟨sb, hsbe, hsbn⟩ := size_bytes_spec A ov g b h
+  have hsbc : sb.toNat = 2 ∨ sb.toNat = 18 := by rw [hsbn]; exact b.sizeBytes_cases
+  have key : ∀ mp : Usize, mp.toNat = (if b.globalPadding then 63 else 0) →
+      U64.subOk g.payload_limit 16 = true ∧ U64.subOk (g.payload_limit - 16) sb = true ∧ U64.subOk (g.payload_limit - 16 - sb) mp = true ∧
+      (g.payload_limit - 16 - sb - mp).toNat = b.packetLimit := by
+    intro mp hmp
+    obtain ⟨k1, k2, k3, hL⟩ := limit_facts mp sb g.payload_limit h.limit hsbc (by rw [hmp]; split <;> omega)
+    exact ⟨k1, k2, k3, by rw [hL, hsbn, hmp]; rfl⟩
+  have hpad := h.pad
+  obtain ⟨g', sess', hce, hc', hs', hst'⟩ := encode_chunk_spec A hC ov g b h rng src dst sess hs h64
+  cases hp : g.padding with
+  | Empty =>
+    rw [hp] at hpad
+    have hgp : b.globalPadding = false := hpad
+    have hb : (PaddingLengthGenerator.Empty == PaddingLengthGenerator.Shake) = false := by decide
+    obtain ⟨k1, k2, k3, hL⟩ := key 0 (by rw [hgp]; rfl)
+    constructor
+    · intro hgt
+      have c := dec_true (Cursor.remaining src > g.payload_limit - 16 - sb - 0)
+        ((lt_iff_toNat _ _).mpr (by rw [remaining_toNat src h64, hL]; exact hgt))
+      simp only [AEADBodyCodec.encode_packet, hp, hb, Bool.false_eq_true, ↓reduceIte, bind_next, A.tag, k1, arith_true, hsbe, call_ok,
+        k2, k3, c, bind_ret, run_ret]
+    · intro hle
+      have c := dec_false (Cursor.remaining src > g.payload_limit - 16 - sb - 0)
+        (fun hh => by have := (lt_iff_toNat _ _).mp hh; rw [remaining_toNat src h64, hL] at this; omega)
+      refine ⟨g', sess', ?_, hc', hs', hst'⟩
+      simp only [AEADBodyCodec.encode_packet, hp, hb, Bool.false_eq_true, ↓reduceIte, bind_next, A.tag, k1, arith_true, hsbe, call_ok,
+        k2, k3, c, hce, run_ret]
+  | Shake =>
+    rw [hp] at hpad
+    have hgp : b.globalPadding = true := hpad
+    have hb : (PaddingLengthGenerator.Shake == PaddingLengthGenerator.Shake) = true := by decide
+    obtain ⟨k1, k2, k3, hL⟩ := key 63 (by rw [hgp]; rfl)
+    constructor
+    · intro hgt
+      have c := dec_true (Cursor.remaining src > g.payload_limit - 16 - sb - 63)
+        ((lt_iff_toNat _ _).mpr (by rw [remaining_toNat src h64, hL]; exact hgt))
+      simp only [AEADBodyCodec.encode_packet, hp, hb, ↓reduceIte, bind_next, A.tag, k1, arith_true, hsbe, call_ok,
+        k2, k3, c, bind_ret, run_ret]
+    · intro hle
+      have c := dec_false (Cursor.remaining src > g.payload_limit - 16 - sb - 63)
+        (fun hh => by have := (lt_iff_toNat _ _).mp hh; rw [remaining_toNat src h64, hL] at this; omega)
+      refine ⟨g', sess', ?_, hc', hs', hst'⟩
+      simp only [AEADBodyCodec.encode_packet, hp, hb, Bool.false_eq_true, ↓reduceIte, bind_next, A.tag, k1, arith_true, hsbe, call_ok,
+        k2, k3, c, hce, run_ret]
+
+/-- the model's `encode_payload` with the padding bytes of each chunk drawn from the random source `X.fill_bytes`
+(fuel: any number above the source length) -/
+def encodePayloadR (X : Ext CM XR RNG) (C : Crypto) : Nat → Body → RNG → Bytes → Bytes × Body × RNG
+  | 0, b, r, _ => ([], b, r)
+  | k + 1, b, r, src =>
+    if src.isEmpty then ([], b, r) else
+    ((b.encodeChunk C src (X.fill_bytes r (List.replicate (b.nextPadding C).1 0)).2).1 ++
+        (encodePayloadR X C k (b.encodeChunk C src (X.fill_bytes r (List.replicate (b.nextPadding C).1 0)).2).2.2
+          (X.fill_bytes r (List.replicate (b.nextPadding C).1 0)).1
+          (b.encodeChunk C src (X.fill_bytes r (List.replicate (b.nextPadding C).1 0)).2).2.1).1,
+      (encodePayloadR X C k (b.encodeChunk C src (X.fill_bytes r (List.replicate (b.nextPadding C).1 0)).2).2.2
+          (X.fill_bytes r (List.replicate (b.nextPadding C).1 0)).1
+          (b.encodeChunk C src (X.fill_bytes r (List.replicate (b.nextPadding C).1 0)).2).2.1).2)
+
+/-- the padding bytes it draws, chunk by chunk -/
+def padsR (X : Ext CM XR RNG) (C : Crypto) : Nat → Body → RNG → Bytes → List Bytes
+  | 0, _, _, _ => []
+  | k + 1, b, r, src =>
+    if src.isEmpty then [] else
+    (X.fill_bytes r (List.replicate (b.nextPadding C).1 0)).2 ::
+      padsR X C k (b.encodeChunk C src (X.fill_bytes r (List.replicate (b.nextPadding C).1 0)).2).2.2
+        (X.fill_bytes r (List.replicate (b.nextPadding C).1 0)).1
+        (b.encodeChunk C src (X.fill_bytes r (List.replicate (b.nextPadding C).1 0)).2).2.1
+
+/-- it is the hand model's `encodePayloadP` on those padding lists -/
+theorem encodePayloadR_eq_P (X : Ext CM XR RNG) (C : Crypto) : ∀ (k : Nat) (b : Body) (r : RNG) (src : Bytes),
+    (encodePayloadR X C k b r src).1 = (Body.encodePayloadP C k b src (padsR X C k b r src)).1 ∧
+    (encodePayloadR X C k b r src).2.1 = (Body.encodePayloadP C k b src (padsR X C k b r src)).2 := by
+  intro k
+  induction k with
+  | zero => intro b r src; exact ⟨rfl, rfl⟩
+  | succ k ih =>
+    intro b r src
+    cases he : src.isEmpty with
+    | true => simp only [encodePayloadR, Body.encodePayloadP, he, if_true]; exact ⟨trivial, trivial⟩
+    | false =>
+      have := ih (b.encodeChunk C src (X.fill_bytes r (List.replicate (b.nextPadding C).1 0)).2).2.2
+        (X.fill_bytes r (List.replicate (b.nextPadding C).1 0)).1
+        (b.encodeChunk C src (X.fill_bytes r (List.replicate (b.nextPadding C).1 0)).2).2.1
+      simp only [encodePayloadR, Body.encodePayloadP, padsR, he, Bool.false_eq_true, if_false, List.headD_cons, List.tail_cons]
+      exact ⟨by rw [this.1], this.2⟩
+
+theorem padsR_ok (A : ExtOk X C) : ∀ (k : Nat) (b : Body) (r : RNG) (src : Bytes), Body.PadsOk C k b src (padsR X C k b r src) := by
+  intro k
+  induction k with
+  | zero => intro b r src; trivial
+  | succ k ih =>
+    intro b r src
+    cases he : src.isEmpty with
+    | true => exact Or.inl (List.isEmpty_iff.mp he)
+    | false =>
+      refine Or.inr ?_
+      simp only [padsR, he, Bool.false_eq_true, if_false, List.headD_cons, List.tail_cons]
+      exact ⟨by rw [A.fill, List.length_replicate]; exact Nat.le_refl _, ih _ _ _⟩
+
+abbrev ESt (CM XR RNG : Type) := AEADBodyCodec CM XR × RNG × Cursor × Cursor × DynSession
+
+def EInv (A : ExtOk X C) (wF : Bytes) (bF : Body) (rF : RNG) (st0 : DecodeState) : ESt CM XR RNG → Prop
+  | (g, rng, src, dst, sess) => ∃ b k, RelCore A g b ∧ SessE sess b ∧ src.length < k ∧ src.length < 2 ^ 64 ∧
+      dst ++ (encodePayloadR X C k b rng src).1 = wF ∧ (encodePayloadR X C k b rng src).2 = (bF, rF) ∧ g.state = st0
+
+def EQn (A : ExtOk X C) (wF : Bytes) (bF : Body) (rF : RNG) (st0 : DecodeState) : ESt CM XR RNG → Prop
+  | (g, rng, _, dst, sess) => RelCore A g bF ∧ SessE sess bF ∧ dst = wF ∧ rng = rF ∧ g.state = st0
+
+def EM : ESt CM XR RNG → Nat
+  | (_, _, src, _, _) => src.length
+
+/-- **`encode_payload`** = the model's chunk loop with the padding bytes of every chunk drawn from the random source
+(`encodePayloadR`; `encodePayloadR_eq_P`: that is `Body.encodePayloadP` on those bytes): never panics, never `Err`, the loop
+ends within its fuel, `dst` grows by exactly the model's wire bytes, codec / session / random source end in the model's state -/
+theorem encode_payload_spec (A : ExtOk X C) (hC : C.Lawful) (ov : Bool) (g : AEADBodyCodec CM XR) (b : Body) (h : RelCore A g b)
+    (rng : RNG) (src dst : Bytes) (sess : DynSession) (hs : SessE sess b) (h64 : src.length < 2 ^ 64) :
+    ∃ g' sess', AEADBodyCodec.encode_payload X ov g rng src dst sess =
+        PWGen.Res.ok (g', (encodePayloadR X C (src.length + 1) b rng src).2.2,
+          dst ++ (encodePayloadR X C (src.length + 1) b rng src).1, sess', RResult.ok ()) ∧
+      RelCore A g' (encodePayloadR X C (src.length + 1) b rng src).2.1 ∧
+      SessE sess' (encodePayloadR X C (src.length + 1) b rng src).2.1 ∧ g'.state = g.state := by
+  generalize hR : encodePayloadR X C (src.length + 1) b rng src = R
+  suffices hx : ∃ r, AEADBodyCodec.encode_payload X ov g rng src dst sess = PWGen.Res.ok r ∧
+      (RelCore A r.1 R.2.1 ∧ SessE r.2.2.2.1 R.2.1 ∧ r.2.2.1 = dst ++ R.1 ∧ r.2.1 = R.2.2 ∧
+        r.1.state = g.state ∧ r.2.2.2.2 = RResult.ok ()) by
+    obtain ⟨⟨g', r', d', s', res⟩, he, h1, h2, h3, h4, h5, h6⟩ := hx
+    simp only at h1 h2 h3 h4 h5 h6
+    subst h3; subst h4; subst h6
+    exact ⟨g', s', he, h1, h2, h5⟩
+  unfold AEADBodyCodec.encode_payload
+  apply run_of_post
+  simp only [post_bind]
+  refine post_mono (post_loopFuel _ EM (EInv A (dst ++ R.1) R.2.1 R.2.2 g.state) (EQn A (dst ++ R.1) R.2.1 R.2.2 g.state) _
+    ?hstep _ (g, rng, src, dst, sess) ?hI ?hM) ?hend
+  case hI => exact ⟨b, src.length + 1, h, hs, Nat.lt_succ_self _, h64, by rw [hR], by rw [hR], rfl⟩
+  case hM => simp only [EM]; omega
+  case hend =>
+    intro ⟨g', r', s', d', ss'⟩ ⟨h1, h2, h3, h4, h5⟩
+    simp only [post_ret]
+    exact ⟨h1, h2, h3, h4, h5, trivial⟩
+  case hstep =>
+    intro ⟨g1, r1, s1, d1, ss1⟩ ⟨b1, k, hc, hse, hk, hl, hw, hb, hst⟩
+    obtain ⟨k', rfl⟩ : ∃ k', k = k' + 1 := ⟨k - 1, by omega⟩
+    cases he : s1.isEmpty with
+    | true =>
+      have hr : (!(Cursor.has_remaining s1)) = true := by simp [Cursor.has_remaining, he]
+      simp only [hr, ↓reduceIte, post_ret, post_brk]
+      simp only [encodePayloadR, he, if_true, List.append_nil] at hw hb
+      simp only [Prod.mk.injEq] at hb
+      exact ⟨by rw [← hb.1]; exact hc, by rw [← hb.1]; exact hse, hw, hb.2, hst⟩
+    | false =>
+      have hr : (!(Cursor.has_remaining s1)) = false := by simp [Cursor.has_remaining, he]
+      obtain ⟨g2, ss2, hce, hc2, hs2, hst2⟩ := encode_chunk_spec A hC ov g1 b1 hc r1 s1 d1 ss1 hse hl
+      simp only [hr, Bool.false_eq_true, ↓reduceIte, hce, call_ok, bind_next, question_ok, post_next]
+      simp only [encodePayloadR, he, Bool.false_eq_true, if_false] at hw hb
+      have hne : s1 ≠ [] := fun hh => by rw [hh] at he; simp at he
+      have hpos := Body.chunkLen_pos C b1 s1 hne
+      have hrest := Body.encodeChunk_rest C b1 s1 (X.fill_bytes r1 (List.replicate (b1.nextPadding C).1 0)).2
+      have hlen : ((b1.encodeChunk C s1 (X.fill_bytes r1 (List.replicate (b1.nextPadding C).1 0)).2).2.1).length < s1.length := by
+        rw [hrest, List.length_drop]
+        have : 0 < s1.length := List.length_pos_iff.mpr hne
+        omega
+      refine ⟨⟨_, k', hc2, hs2, by omega, by omega, ?_, hb, by rw [hst2, hst]⟩, ?_⟩
+      · rw [← hw, List.append_assoc]
+      · simp only [EM]; exact hlen
+
+end enc
 end Octo.VmessBodyGen
